@@ -497,8 +497,10 @@ def _recv_into_ext(I, ref, args, kw):
     from pyvc.values import SView
 
     view = args[0]
+    if isinstance(view, SBytes) and view.kind == "bytearray":
+        view = SView(view, 0, I.bytes_len(view))  # recv_into(bytearray) writes into the bytearray itself
     if not isinstance(view, SView):
-        raise OutOfReach("recv_into on something that is not a view of a bytearray")
+        raise OutOfReach("recv_into on something that is neither a bytearray nor a view of one")
     n = I.bytes_len(view)
     cur = I.ctx.ghost["cur"]
     left = blen(STREAM) - Z(cur)
